@@ -281,6 +281,15 @@ def run(ctx):
               {'func': 'SUMPRODUCT', 'cells': [a, b], 'kinds': 'sp2',
                'two_d': rows > 1 and cols > 1,
                'nt': ('SUMPRODUCT', rows, cols, repr(b)[:60])})
+        # same number of cells, different shape (transposed)
+        if rows != cols:
+            tr = [numbers(rng, rows) for _r in range(cols)]
+            rt = B.place(tr)
+            B.add(('call', 'SUMPRODUCT', [('rng', None) + ra + (F4,),
+                                          ('rng', None) + rt + (F4,)]),
+                  {'func': 'SUMPRODUCT', 'cells': [a, tr],
+                   'kinds': 'sp-transposed', 'two_d': True,
+                   'nt': ('SUMPRODUCT-transposed', rows, cols)})
         c = [numbers(rng, cols + 1) for _r in range(rows)]
         rc = B.place(c)
         B.add(('call', 'SUMPRODUCT', [('rng', None) + ra + (F4,),
